@@ -17,6 +17,11 @@
 
 #include <cassert>
 #include <stdint.h>
+#include <poll.h>
+#include <signal.h>
+#include <sys/types.h>
+#include <sys/wait.h>
+#include <unistd.h>
 #include <functional>
 #include <map>
 #include <memory>
@@ -107,6 +112,67 @@ template <class D> std::string valuesOf(const OndriksMTBDD<typename D::T>& m, un
 
 template <class D> long leafTableSize() { return (long) OndriksMTBDD<typename D::T>::leafCache_.size(); }
 template <class D> long intTableSize() { return (long) OndriksMTBDD<typename D::T>::internalCache_.size(); }
+
+// ---- crash isolation ---------------------------------------------------------------------------------------
+// A reference-counting error shows as a crash, a hang or heap corruption.  The cases are therefore run in a forked
+// worker; when the worker dies (or is silent for 20 s) the case it was working on gets the result line
+// "CRASH signal <n>" / "HANG" and a fresh worker continues with the next case, so one output line per case is
+// always produced and a broken library cannot stall the check.
+template <class F> std::string guardedStr(F f) {
+	try { return f(); }
+	catch (const VATA::NotImplementedException& e) { return "EXC NotImplemented"; }
+	catch (const std::out_of_range& e) { return "EXC out_of_range"; }
+	catch (const std::runtime_error& e) { return std::string("EXC runtime_error ") + e.what(); }
+	catch (const std::exception& e) { return "EXC std_exception"; }
+	catch (...) { return "EXC non_std"; }
+}
+
+template <class H> int runIsolated(H handleLine) {
+	std::vector<std::string> lines; std::string line;
+	while (std::getline(std::cin, line)) lines.push_back(line);
+	size_t i = 0;
+	while (i < lines.size()) {
+		int fd[2]; if (pipe(fd) != 0) return 3;
+		std::cout.flush(); fflush(stdout);
+		pid_t pid = fork();
+		if (pid < 0) return 3;
+		if (pid == 0) {
+			close(fd[0]);
+			for (size_t k = i; k < lines.size(); ++k) {
+				const std::string& l = lines[k];
+				std::string out = guardedStr([&]() { return handleLine(l); });
+				for (char& c : out) if (c == '\n') c = ' ';
+				out += "\n";
+				size_t off = 0; while (off < out.size()) { ssize_t w = write(fd[1], out.data() + off, out.size() - off); if (w <= 0) _exit(4); off += (size_t) w; }
+			}
+			_exit(0);
+		}
+		close(fd[1]);
+		std::string buf; size_t got = 0; bool hang = false; char tmp[65536];
+		for (;;) {
+			struct pollfd p; p.fd = fd[0]; p.events = POLLIN; p.revents = 0;
+			int r = poll(&p, 1, 20000);
+			if (r == 0) { hang = true; kill(pid, SIGKILL); break; }
+			if (r < 0) break;
+			ssize_t n = read(fd[0], tmp, sizeof tmp);
+			if (n <= 0) break;
+			buf.append(tmp, (size_t) n);
+			size_t pos;
+			while ((pos = buf.find('\n')) != std::string::npos) { std::cout << buf.substr(0, pos) << "\n"; buf.erase(0, pos + 1); ++got; }
+		}
+		close(fd[0]);
+		int st = 0; waitpid(pid, &st, 0);
+		i += got;
+		if (i < lines.size()) {
+			if (hang) std::cout << "HANG no output for 20 s\n";
+			else if (WIFSIGNALED(st)) std::cout << "CRASH signal " << WTERMSIG(st) << "\n";
+			else std::cout << "CRASH exit " << (WIFEXITED(st) ? WEXITSTATUS(st) : -1) << "\n";
+			++i;
+		}
+		std::cout.flush();
+	}
+	return 0;
+}
 
 } // namespace vm
 #endif
